@@ -48,6 +48,11 @@ def generate(rng, tier):
                "axes": axes, "corners": rng.random() < 0.4, "pre": rng.choice([None, None, None, "slice", "rebin"]),
                "form": rng.choice(["values", "values", "high"])}
 
+    # targeted: a cube cut out far along a long axis
+    for k in range(6 if tier == "quick" else 60):
+        shape = [[300], [3, 300], [300, 2]][k % 3]
+        yield {"shape": shape, "fam": ["fits_sep", "probe", "fits_cel"][k % 3] if len(shape) > 1 else "fits_sep", "wseed": rng.randrange(10**6) * 12 + 2,
+               "ecs": [], "which": "wcs", "axes": None, "corners": False, "pre": "slice_far", "form": ["values", "high"][k % 2]}
     # targeted: extra coords on some axes only, an integer axis that carries none asked for through the extra coords
     # (both forms); and two tables of the same physical type with a physical-type string as the request
     for k in range(40 if tier == "quick" else 2000):
@@ -95,6 +100,9 @@ def build(case):
         if len(shape) > 1:
             item = (0,) + item[1:]
         cube = cube[item]
+    elif case["pre"] == "slice_far":
+        # a range that starts far along a long axis (beyond what an 8-bit pixel grid could count to)
+        cube = cube[tuple(slice(230, 290) if s >= 290 else slice(None) for s in shape)]
     elif case["pre"] == "rebin":
         bins = tuple(2 if s % 2 == 0 else 1 for s in shape)
         if any(b > 1 for b in bins):
